@@ -30,6 +30,16 @@ let eval_stream (stream : string) (case : string) (impl : string) : verdict =
        let m1 = hex_of_bytes (Model.format_http_date (z_of_int (max 0 (t - 1)))) in
        { model = (if d = m1 then m1 else m) ^ " " ^ first; fails = (if d <> m && d <> m1 then [("C18", "-")] else []) }
      | _ -> { model = "?"; fails = [("C18", "-")] })
+  | "dateclock" ->
+    (* real clock: every reported date must be the formatted second s for some before-1 <= s <= after *)
+    let ok_triple t = match split_on ':' t with
+      | [_k; tb; ta; d] ->
+        let tb = int_of_string tb and ta = int_of_string ta in
+        let rec any s = s <= ta && (hex_of_bytes (Model.format_http_date (z_of_int s)) = d || any (s + 1)) in
+        ta - tb <= 5 && any (max 0 (tb - 1))
+      | _ -> false in
+    let good = impl <> "" && List.for_all ok_triple (split_on ',' impl) in
+    { model = (if good then impl else "some date outside [before-1, after]"); fails = (if good then [] else [("C18", "-")]) }
   | "router" ->
     (match split_on '|' case with
      | [regs; qs] ->
